@@ -27,6 +27,7 @@ def main():
     a = ap.parse_args()
     seed = int(os.environ.get("VERIF_SEED", "0") or 0)
     tier = a.tier if a.tier in ("quick", "thorough") else "quick"
+    core.TIER = tier
     import props  # noqa: E402
 
     fn = getattr(props, "check_" + a.pid, None)
